@@ -21,7 +21,7 @@ func init() {
 			"glow.Verify(equipment[id].PublicKey, report.SigningBytes(), report.Signature) for the very report value that is passed on; PRED the dominating guards are equivalent to -432 <= ts - now <= 432 evaluated without wrap-around for every 32-bit ts and now " +
 			"(compared cell by cell, including the uint32 extremes) and to PowerOutput not in {0,1}; the storage-window guards of the integrator are equivalent to offset <= ts < offset+4032; PURE the handler has no write effect on server state and no file write outside the integrator call " +
 			"(reject paths leave every observable unchanged); the listener hands over only datagrams of exactly 80 bytes read into an 80-byte buffer; the parser decodes ShortID/Timeslot/PowerOutput/Signature from bytes 0:4, 4:8, 8:16, 16:80 little-endian. " +
-			"COVER EquipmentReport.SigningBytes writes every field of the report except Signature at its full width (a field that is missing or narrowed could be altered under a valid signature). the device-table rules of C06 (ban test, identical no-op, persist first, conflict deletes exactly one id everywhere, key-set pairing) are re-run, because \"authorized, non-banned\" rests on them. NOT decided: cryptographic strength of secp256k1/Keccak (trusted); 'every observable exactly as it was' is decided as 'no write effect on reject paths', not by observing endpoints; signing-bytes layout is C15's.",
+			"COVER EquipmentReport.SigningBytes writes every field of the report except Signature at its full width (a field that is missing or narrowed could be altered under a valid signature). the device-table rules of C06 (ban test, identical no-op, persist first, conflict deletes exactly one id everywhere, key-set pairing) are re-run, because \"authorized, non-banned\" rests on them. glow.Verify derives one key from its argument and verifies under that key only (one decompression, one verification, no retry). NOT decided: cryptographic strength of secp256k1/Keccak (trusted); 'every observable exactly as it was' is decided as 'no write effect on reject paths', not by observing endpoints; signing-bytes layout is C15's.",
 		Assumptions: append([]string{"glow.Verify(key, data, sig) is true only for a signature by key over data (secp256k1 + Keccak256, trusted)", "glow.CurrentTimeslot() < 2^31"}, baseAssumptions...),
 		Run:         runC01,
 	})
@@ -128,6 +128,7 @@ func runC01(c *an.Ctx) {
 		handler = h
 	}
 	c.Scope(integ, handler, listener)
+	verifyOneKey(c)
 	ctor := p.Constructor("server", "GCAServer")
 	construction := p.ConstructionPhase("server", ctor)
 
@@ -591,4 +592,45 @@ func storageWindow(c *an.Ctx, integ *ssa.Function) {
 	default:
 		c.Proved("PRED", integ, first.Pos(), key, "a slot is touched exactly when offset <= ts < offset+4032 (for offsets below 2^31)", fmt.Sprintf("%d cells compared; guards: %s", pts, factsText(rel)))
 	}
+}
+
+// verifyOneKey: glow.Verify checks the signature under the one public key it is given: the 32 bytes are completed to a
+// compressed key once, decompressed once and handed to one signature verification, none of it in a loop ("any other
+// key" includes the key with the same X and the other parity).
+func verifyOneKey(c *an.Ctx) {
+	p := c.P
+	v := p.Func("glow", "Verify")
+	if v == nil {
+		c.Undecided("KEYS", nil, 0, "glow.Verify", "glow.Verify not found", "anchor missing")
+		return
+	}
+	c.Scope(v)
+	inLoop := func(b *ssa.BasicBlock) bool {
+		for _, l := range loopsOf(v) {
+			if l.body[b] {
+				return true
+			}
+		}
+		return false
+	}
+	nDec, nVer, looped := 0, 0, false
+	for _, b := range v.Blocks {
+		for _, in := range b.Instrs {
+			call, ok := in.(*ssa.Call)
+			if !ok {
+				continue
+			}
+			name := an.CalleeName(&call.Call)
+			switch {
+			case strings.HasSuffix(name, "crypto.DecompressPubkey"):
+				nDec++
+				looped = looped || inLoop(b)
+			case strings.HasSuffix(name, "crypto.VerifySignature"):
+				nVer++
+				looped = looped || inLoop(b)
+			}
+		}
+	}
+	c.Check(nDec == 1 && nVer == 1 && !looped, "KEYS", v, v.Pos(), an.KeyOf(v, "one-key"), "glow.Verify derives one public key from its argument and verifies the signature under that key only (one decompression, one verification, no retry)",
+		fmt.Sprintf("%d decompressions, %d verifications, in a loop: %v", nDec, nVer, looped))
 }
